@@ -247,6 +247,22 @@ func runSets(r *driver.Run) {
 	e.keepRaw = t.Chance(1, 2)
 	r.Logf("config values in [%d,%d], %d ops, results kept as returned=%v", e.lo, e.hi, nops, e.keepRaw)
 	e.put(modelOf(e.drawList(6)))
+	if t.Chance(1, 8) {
+		// a few large sets in the pool (block sizes / binary-search fast paths of any optimisation)
+		for k := 0; k < 2; k++ {
+			sz := 40 + t.Draw(260)
+			xs := make([]int, sz)
+			base := e.drawInt()
+			if e.extreme {
+				base = -150
+			}
+			for i := range xs {
+				xs[i] = base + i*(1+t.Draw(3)) // clustered, so that small sets intersect them
+			}
+			e.put(modelOf(xs))
+		}
+		r.Probe("large-sets-in-pool")
+	}
 	mutations := 0
 	for op := 0; op < nops; op++ {
 		k := t.Draw(17)
